@@ -205,6 +205,12 @@ def gen_cases(rng, tier):
         body = bytes((k * 7 + k // 251) % 256 for k in range(big))
         add(MAGIC + header("first.o/", 5000, 1, 2, 100644, 10) + b"0123456789" + header("big.o/", 1700000000, 3, 4, 100644, big) + body + (b"\n" if big % 2 else b"")
             + header("last.o/", 1700000000, 5, 6, 100644, 3) + b"xyz\n", 1600000000, ["big-member-%d" % big])
+    # an epoch later than today's date is used all the same (with a warning): members later still are clamped to it
+    F = hd.FUTURE_EPOCH
+    add(MAGIC + header("late.o/", F + 10 ** 8, 0, 0, 100644, 4) + b"abcd", F, ["future-epoch", "clamp-only"])
+    add(MAGIC + header("/", F + 10 ** 8 + 1, 0, 0, 0, 4) + b"\0\0\0\0" + header("late.o/", F + 1, 0, 0, 100644, 3) + b"abc\n" + header("exact.o/", F, 0, 0, 100644, 2) + b"xy"
+        + header("old.o/", 1700000000, 1000, 425, 100644, 2) + b"zz", F, ["future-epoch"])
+    add(MAGIC + header("a.o/", F + 2, 0, 0, 100644, 0) + header("b.o/", F - 2, 0, 0, 100644, 0), F, ["future-epoch", "clamp-only"])
     add(MAGIC + header("a/", 5000, 1, 0, 644, 4294967295) + b"xx", 1000, ["size-max"])
     add(MAGIC + header("a/", 5000, 1, 0, 644, 4294967294) + b"xx", 1000, ["size-max-1"])
     add(MAGIC + header("a/", "", 1, 0, 644, 0), 1000, ["blank-mtime"])
